@@ -28,5 +28,7 @@ SEEDED = [
     ("C04-2", "C04-BYTES"),
     ("C04-3", "C04-STR"),
     ("C04-4", "C04-STR"),
+    ("C04-6", "C04-META"),
+    ("C04-7", "C04-CHR"),
 ]
 MUTANTS = list(MUTANTS) + [_P("seed-" + sid, _os.path.join(_SEEDS, sid, "patch.diff"), rule) for sid, rule in SEEDED if _os.path.exists(_os.path.join(_SEEDS, sid, "patch.diff"))]
